@@ -1,6 +1,6 @@
 (* C06 — retried response uploads are never corrupted.  Statements only. *)
 From Coq Require Import ZArith List Bool Arith Lia.
-From IP Require Import Gen.SrcFacts_Agent Agent.ReplayBuffer Proofs.ReplayProofs.
+From IP Require Import Gen.SrcFacts_Agent Agent.ReplayBuffer Proofs.ReplayProofs Codec.Chunked Proofs.ChunkedProofs.
 Import ListNotations.
 
 Definition cap_now : nat := Z.to_nat readResponseBufSize.
@@ -10,6 +10,14 @@ Theorem C06_constants :
   readResponseBufSize = 4096%Z /\ maxWriteResponseRetryCount = 2%Z /\ responseForwarderChanCaps = [0; 1; 1]%Z.
 Proof. repeat split; reflexivity. Qed.
 Print Assumptions C06_constants.
+
+(* An upload attempt that carries only part of the response cannot be taken for a complete one by the proxy: the upload is
+   chunk-coded (C05_incremental_upload), and every strict prefix of the chunks and the terminating  0 CRLF  line - cut inside a
+   size line, inside the data, or between data and its CRLF - is rejected by the reader, for every segmentation and every bytes. *)
+Theorem C06_truncated_upload_rejected : forall (writes : list (list nat)) p q fuel acc,
+  p ++ q = concat (map enc_chunk writes) ++ [48; CR; LF] -> q <> [] -> decode_fuel fuel p acc = None.
+Proof. exact truncated_rejected. Qed.
+Print Assumptions C06_truncated_upload_rejected.
 
 Lemma cap_now_pos : 0 < cap_now.
 Proof. unfold cap_now. assert (0 < readResponseBufSize)%Z by reflexivity. lia. Qed.
